@@ -155,6 +155,8 @@ def phi_alternatives(e: ast.AST) -> List[ast.AST]:
         for a in e.args:
             out += phi_alternatives(a)
         return out
+    if isinstance(e, ast.IfExp):
+        return phi_alternatives(e.body) + phi_alternatives(e.orelse)
     return [e]
 
 
